@@ -310,6 +310,11 @@ def sample_digest(rnd):
     if n == 1 and ws[0] == 1:
         mx = mn
         ms[0] = mn
+    if rnd.random() < 0.15:
+        # a stream of identical values: every mean is that value and min == max
+        v = rnd.choice([0.1, 19.99, 1e-7, 12345.678, -3.3, 1.0 / 3.0])
+        mn = mx = v
+        ms = [v] * n
     ms.sort()
     return {"n": n, "min": mn, "max": mx, "W": sum(ws), "c": [{"mean": m, "weight": w} for m, w in zip(ms, ws)]}
 
@@ -350,6 +355,13 @@ def run(prog, ctx):
     thorough = ctx.get("tier") == "thorough"
     n_digests = 1500 if thorough else 300
     digests = [sample_digest(rnd) for _ in range(n_digests)]
+    # streams of identical values first (min == max == every mean): the place where interpolation rounding shows
+    const_digests = []
+    for v in (0.1, 19.99, 1e-7, 12345.678, -3.3, 1.0 / 3.0):
+        for n_ in (2, 3, 5):
+            ws_ = [rnd.choice([1, 2, 3, 4, 7, 20]) for _ in range(n_)]
+            const_digests.append({"n": n_, "min": v, "max": v, "W": sum(ws_), "c": [{"mean": v, "weight": w_} for w_ in ws_]})
+    digests = const_digests + digests
     n_sites = 0
     clamps = {"rank0": 0, "rank1": 0, "qmin": 0, "qmax": 0}
     clamp_bad = {}
@@ -388,7 +400,7 @@ def run(prog, ctx):
                             continue
                         accepted += 1
                         lo, hi = (0.0, 1.0) if what == "rank" else (d["min"], d["max"])
-                        tol = 1e-9 * max(1.0, abs(lo), abs(hi))
+                        tol = 0.0 if what == "quantile" else 1e-12        # the range of quantile is exact; rank sums weights in floating point
                         state = {"min": d["min"], "max": d["max"], "centroids": [(c["mean"], c["weight"]) for c in d["c"]], qname: q}
                         ck = None
                         if what == "rank" and q < d["min"]:
